@@ -190,10 +190,15 @@ SIGMA_FNS = {
 PARAMS = {
     "brownian": [{}, {"sigma": 2.0, "mu": 0.5, "dt": 1 / 12}, {"sigma": 0.0, "mu": -0.3}],
     "geometric_brownian": [{}, {"sigma": 2.0, "mu": 0.5, "dt": 1 / 12}, {"sigma": 0.0, "mu": -0.3}],
+    # the last two: extreme vol-of-vol / low variance, sigma^2/(2 kappa theta) = 4.5e7 and about 1e4 - at v = 0
+    # the QE ratio psi is so large that p = (psi-1)/(psi+1) rounds to exactly 1 in float32 (first set) and in
+    # bfloat16 (second set; for CIR a coarser grid keeps m^2 inside float16's range, so float16 rounds too)
     "cir": [{}, {"kappa": 0.5, "theta": 0.04, "sigma": 2.0, "dt": 1 / 12},
-            {"kappa": 3.0, "theta": 0.001, "sigma": 0.5}],
+            {"kappa": 3.0, "theta": 0.001, "sigma": 0.5},
+            {"theta": 1e-7, "sigma": 3.0}, {"kappa": 5.0, "theta": 0.04, "sigma": 60.0, "dt": 1 / 12}],
     "heston": [{}, {"kappa": 0.5, "theta": 0.04, "sigma": 2.0, "rho": 0.7, "dt": 1 / 12},
-               {"kappa": 3.0, "theta": 0.001, "sigma": 0.5, "rho": -0.95}],
+               {"kappa": 3.0, "theta": 0.001, "sigma": 0.5, "rho": -0.95},
+               {"theta": 1e-7, "sigma": 3.0}, {"theta": 0.04, "sigma": 30.0, "rho": 0.3}],
     "vasicek": [{}, {"kappa": 5.0, "theta": -0.02, "sigma": 0.5, "dt": 1 / 12}, {"theta": 0.0, "sigma": 0.0}],
     "merton_jump": [{}, {"mu": 0.1, "sigma": 0.5, "jump_per_year": 5.0, "jump_mean": -0.1, "jump_std": 0.3,
                          "dt": 1 / 12}, {"jump_per_year": 0.0}],
@@ -359,6 +364,17 @@ def judge(block, res, n_paths, eff, twin=None, stats=None):
     if tuple(names) != tuple(fields):
         problems.append(("series_names", f"series {names}, documented {list(fields)}", None, names, list(fields)))
         return problems
+    # shapes first: a misshaped (e.g. empty) result never reaches the value checks
+    for f in fields:
+        x = res[f]
+        if not isinstance(x, torch.Tensor) or tuple(x.shape) != (n_paths, n_steps):
+            shp = list(x.shape) if isinstance(x, torch.Tensor) else repr(type(x))
+            problems.append((f"shape:{f}", f"{f} has shape {shp}, expected {(n_paths, n_steps)}",
+                             None, shp, [n_paths, n_steps]))
+    if problems:
+        return problems
+    if twin is not None and any(f not in twin or tuple(twin[f].shape) != (n_paths, n_steps) for f in fields):
+        twin = None
     init = requested_init(block["kind"], block["name"], block["params"], block["init"]["form"],
                           block["init"].get("values"))
     finfo = torch.finfo(eff)
@@ -374,10 +390,6 @@ def judge(block, res, n_paths, eff, twin=None, stats=None):
             stats["half_untracked_overflow_paths"] = 0 if untracked is None else int((untracked & ~over).sum())
     for k, f in enumerate(fields):
         x = res[f]
-        if tuple(x.shape) != (n_paths, n_steps):
-            problems.append((f"shape:{f}", f"{f} has shape {tuple(x.shape)}, expected {(n_paths, n_steps)}",
-                             None, list(x.shape), [n_paths, n_steps]))
-            continue
         if x.dtype != eff:
             problems.append((f"dtype:{f}:{_dn(block['dtype'])}_under_{block['default']}:init_{block['init']['form']}",
                              f"{f} has dtype {x.dtype}, expected {eff} (requested {block['dtype']}, "
@@ -718,14 +730,24 @@ def series_shape(ctx, block):
 # ---------------------------------------------------------------------------------
 # re-simulation histories (bfs)
 # ---------------------------------------------------------------------------------
-def _resim_ops(name):
+def _resim_ops(name, tier="thorough"):
+    """Operation alphabet of the re-simulation histories: simulate() calls with changing n_paths / horizon /
+    initial state, READING the derived series (volatility / variance properties), and a cast."""
     iv = INIT_VALUES[SC.INSTRUMENTS[name]["gen"]]
-    return [
+    ops = [
         {"n": 2, "k": 2, "init": None},
         {"n": 5, "k": 3, "init": iv[0]},
+        {"read": "derived"},
         {"n": 1, "k": 0, "init": None},
-        {"n": 3, "k": 6, "init": iv[1]},
+        {"to": "other"},            # to(float64), or to(float32) when the instrument already is float64
     ]
+    if tier == "thorough":
+        ops.append({"n": 3, "k": 6, "init": iv[1]})
+    return ops
+
+
+def _is_sim(op):
+    return "n" in op
 
 
 class _Scripted:
@@ -757,52 +779,104 @@ class _Scripted:
         return table.double()[(idx + req["index"]) % len(table)]
 
 
+def _derived_problems(name, inst):
+    """volatility / variance exposed by the instrument NOW: shape and dtype of the current spot and
+    volatility == sqrt(max(variance, 0)).  Returns a list of (class, message, observed, expected)."""
+    spec = SC.INSTRUMENTS[name]
+    if not spec["vol"]:
+        return []
+    spot = inst.spot
+    out = []
+    vol, var = getattr(inst, spec["vol"][0]), getattr(inst, spec["vol"][1])
+    for what, t in (("volatility", vol), ("variance", var)):
+        if tuple(t.shape) != tuple(spot.shape):
+            out.append((f"derived_stale_shape:{what}", f"{what} has shape {tuple(t.shape)}, the current series "
+                        f"have {tuple(spot.shape)}", list(t.shape), list(spot.shape)))
+        elif t.dtype != spot.dtype:
+            out.append((f"derived_stale_dtype:{what}", f"{what} has dtype {t.dtype}, the current series are "
+                        f"{spot.dtype}", str(t.dtype), str(spot.dtype)))
+    if out:
+        return out
+    finfo = torch.finfo(spot.dtype)
+    vd, wd = vol.double(), var.double()
+    ok = torch.isfinite(vd) & torch.isfinite(wd)
+    root = wd.clamp(min=0).sqrt()
+    tol = SC.sqrt_tolerance(spot.dtype) * root + (finfo.tiny * finfo.eps) ** 0.5 * 2     # as in judge()
+    bad = ok & (((vd - root).abs() > tol) | (vd < 0))
+    if bad.any():
+        r = int(bad.any(dim=1).nonzero()[0])
+        out.append(("derived_not_sqrt_variance", "volatility != sqrt(variance) of the current series",
+                    vd[r].tolist()[:8], root[r].tolist()[:8]))
+    return out
+
+
 def _resim_build(block, history):
-    """Fresh instrument, history of simulate() ops replayed with the scripted RNG.
-    Returns dict(buffers, vol, error)."""
+    """Fresh instrument, history replayed with the scripted RNG.  The derived series are read where the
+    history says so and once more at the end.  Returns a dict describing the end state."""
     import pfhedge.instruments as I
     name = block["name"]
     params = dict(block["params"])
     if "sigma_fn" in params:
         params["sigma_fn"] = SIGMA_FNS[params["sigma_fn"]]
     dtype = None if block["dtype"] is None else DT[block["dtype"]]
-    world = {"error": None, "per_op": []}
+    world = {"error": None, "derived": [], "read": False}
     with Default(block["default"]):
+        cur = dtype if dtype is not None else torch.get_default_dtype()
         inst = getattr(I, name)(dtype=dtype, **params)
-        for op in history:
-            rng = OwnedRNG({s: _Scripted() for s in OwnedRNG.SITES})
+        simulated = False
+        for i, op in enumerate(history):
             try:
-                with rng:
+                if "read" in op:
+                    if simulated:
+                        world["derived"] += [(i,) + p for p in _derived_problems(name, inst)]
+                        world["read"] = True
+                    continue
+                if "to" in op:
+                    cur = torch.float32 if cur == torch.float64 else torch.float64
+                    inst.to(cur)
+                    continue
+                rng = OwnedRNG({s: _Scripted() for s in OwnedRNG.SITES})
+                try:
+                    with rng:
+                        if hasattr(inst, "engine"):
+                            inst.engine = rng._randn     # the engine stored at construction is torch.randn
+                        kw = {} if op["init"] is None else {"init_state": tuple(op["init"])}
+                        inst.simulate(n_paths=op["n"], time_horizon=_steps_to_horizon(op["k"], inst.dt), **kw)
+                    simulated = True
+                    world["read"] = False
+                finally:
                     if hasattr(inst, "engine"):
-                        inst.engine = rng._randn     # the engine stored at construction is torch.randn
-                    kw = {} if op["init"] is None else {"init_state": tuple(op["init"])}
-                    inst.simulate(n_paths=op["n"], time_horizon=_steps_to_horizon(op["k"], inst.dt), **kw)
+                        inst.engine = torch.randn
             except HarnessError:
                 raise
             except Exception as e:  # noqa: BLE001
                 world["error"] = (op, e)
                 break
-            finally:
-                if hasattr(inst, "engine"):
-                    inst.engine = torch.randn
+        if world["error"] is None and simulated:
+            try:
+                world["derived"] += [(len(history),) + p for p in _derived_problems(name, inst)]
+            except HarnessError:
+                raise
+            except Exception as e:  # noqa: BLE001
+                world["error"] = ({"read": "derived"}, e)
         world["buffers"] = {k: v.detach().clone() for k, v in inst.named_buffers()}
-        world["ptrs"] = {k: v.data_ptr() for k, v in inst.named_buffers()}
-        world["inst"] = inst
+        world["dtype"] = cur
     return world
 
 
 def _resim_canon(world):
     if world["error"] is not None:
         return ("error", type(world["error"][1]).__name__)
-    return tuple((k, tuple(v.shape), str(v.dtype)) for k, v in world["buffers"].items())
+    return (tuple((k, tuple(v.shape), str(v.dtype)) for k, v in world["buffers"].items()), world["read"])
 
 
 def _resim_check(ctx, block, history, world, cache):
-    """After the last op of ``history`` the buffers equal those of a fresh instrument given only that op."""
+    """End state of ``history``: documented buffer names, the shape of the last simulate(), the current dtype,
+    derived series consistent with the current series at every read, and - when the last operation is a
+    simulate() - buffers bitwise those of a fresh instrument (in the current dtype) given only that call."""
     name = block["name"]
     site = name + ".simulate"
-    last = history[-1]
-    eff = DT[block["dtype"]] if block["dtype"] else DT[block["default"]]
+    eff = world.get("dtype") or (DT[block["dtype"]] if block["dtype"] else DT[block["default"]])
     mini = dict(block)
     mini["histories"] = [history]
     if world["error"] is not None:
@@ -810,18 +884,23 @@ def _resim_check(ctx, block, history, world, cache):
         if SC.is_backend_unsupported(e, eff):
             ctx.add("unsupported_half_precision", 1)
             return
-        cls = f"raises:{type(e).__name__}" + (":n_steps=1" if op["k"] == 0 else ":resimulate")
-        ctx.violation(site, cls, f"{type(e).__name__}: {str(e)[:200]} in simulate(n_paths={op['n']}, "
-                      f"steps={op['k'] + 1}) after history {history[:-1]}", observed=str(e)[:200],
-                      expected="buffers", block=mini)
+        if _is_sim(op):
+            cls = f"raises:{type(e).__name__}" + (":n_steps=1" if op["k"] == 0 else ":resimulate")
+            what = f"simulate(n_paths={op['n']}, steps={op['k'] + 1})"
+        else:
+            cls = f"raises:{type(e).__name__}:{next(iter(op))}"
+            what = repr(op)
+        ctx.violation(site, cls, f"{type(e).__name__}: {str(e)[:200]} in {what} within history {history}",
+                      observed=str(e)[:200], expected="buffers", block=mini)
         return
-    key = repr(last)
-    if key not in cache:
-        cache[key] = _resim_build(block, [last])
-    fresh = cache[key]
-    if fresh["error"] is not None:
+    for i, cls, msg, obs, exp in world["derived"]:
+        ctx.violation(name + ".volatility", cls, f"{msg}; read after operation {i} of history {history}",
+                      observed=obs, expected=exp, block=mini)
+    sims = [op for op in history if _is_sim(op)]
+    if not sims:
         return
-    got, want = world["buffers"], fresh["buffers"]
+    last = sims[-1]
+    got = world["buffers"]
     expected_names = SC.INSTRUMENTS[name]["buffers"]
     shape = (last["n"], last["k"] + 1)
     if tuple(got) != tuple(expected_names):
@@ -838,14 +917,26 @@ def _resim_check(ctx, block, history, world, cache):
             ctx.violation(site, f"resim_dtype:{k}", f"buffer {k} has dtype {got[k].dtype}, expected {eff}",
                           observed=str(got[k].dtype), expected=str(eff), block=mini)
             return
+    i_last = max(i for i, op in enumerate(history) if _is_sim(op))
+    if any("to" in op for op in history[i_last + 1:]):
+        return          # a cast came after the last simulate(): values are the cast of the previous ones
+    key = (repr(last), str(eff))
+    if key not in cache:
+        b2 = dict(block)
+        b2["dtype"] = str(eff).split(".")[-1]
+        cache[key] = _resim_build(b2, [last])
+    fresh = cache[key]
+    if fresh["error"] is not None:
+        return
+    want = fresh["buffers"]
     for k in got:
         a, b = got[k], want[k]
-        same = torch.equal(a, b) or torch.equal(a.double().nan_to_num(nan=-7.0), b.double().nan_to_num(nan=-7.0))
+        same = a.shape == b.shape and (torch.equal(a, b) or torch.equal(a.double().nan_to_num(nan=-7.0),
+                                                                        b.double().nan_to_num(nan=-7.0)))
         if not same:
-            r = int((a != b).any(dim=1).nonzero()[0])
             ctx.violation(site, f"resim_values:{k}", f"buffer {k} after history {history} differs from a fresh "
                           f"instrument's given the same simulate() call and RNG answers (stale data survives)",
-                          observed=a[r].tolist()[:8], expected=b[r].tolist()[:8], block=mini)
+                          observed=a.flatten().tolist()[:8], expected=b.flatten().tolist()[:8], block=mini)
             return
 
 
@@ -853,7 +944,7 @@ def _resim_check(ctx, block, history, world, cache):
 def resimulate(ctx, block):
     """block: instrument config + either 'histories' (explicit list of op lists) or 'depth'."""
     name = block["name"]
-    ops = _resim_ops(name)
+    ops = _resim_ops(name, block.get("ops", "thorough"))
     cache = {}
     if "histories" in block:
         hists = [h for h in block["histories"] if h]
@@ -864,7 +955,8 @@ def resimulate(ctx, block):
         w = _resim_build(block, h)
         _resim_check(ctx, block, h, w, cache)
         n_states.add(_resim_canon(w))
-        ctx.tick(1, nontrivial=1 if len(h) > 1 and h[-1] != h[-2] else 0)
+        ctx.tick(1, nontrivial=1 if len([o for o in h if _is_sim(o)]) > 1 or (
+            len(h) > 1 and any("read" in o for o in h[:-1])) else 0)
         ctx.add("traces_validated_against_impl", 1)
         ctx.add("transitions", len(h))
         ctx.outcome((name, _resim_canon(w)))
@@ -999,7 +1091,7 @@ def _blocks_resim(ctx):
                 if ctx.quick and (default, dtype) not in (("float32", None), ("float32", "float64")):
                     continue
                 yield {"name": name, "params": params, "dtype": dtype, "default": default,
-                       "depth": ctx.pick(3, 4)}
+                       "depth": ctx.pick(3, 4), "ops": ctx.tier}
 
 
 def run(ctx):
